@@ -529,6 +529,8 @@ class Interp:
             return self.call_dispatch(f, args, kwargs)
         if isinstance(f, Abstract):
             return f.p_call(self, args, kwargs)
+        if isinstance(f, types.MethodType) and f.__name__ == "_asdict" and isinstance(f.__self__, tuple):
+            return f()            # namedtuple._asdict: structural, never inspects the field values
         if isinstance(f, types.MethodType):
             fn = f.__func__
             if fn in self.contracts or fn in self.models or self.is_interpretable(fn) or not self.all_concrete(args, kwargs):
@@ -541,6 +543,10 @@ class Interp:
         pm = getattr(f, "_pyvc_model", None)
         if pm is not None and (getattr(f, "_pyvc_always", False) or not self.all_concrete(args, kwargs)):
             return pm(self, list(args), kwargs)
+        if isinstance(f, types.FunctionType) and hasattr(f, "dispatch") and hasattr(f, "registry") and args:
+            a0 = self.force(args[0])
+            impl = f.dispatch(self.pytype_of(a0))
+            return self.call(impl, [a0] + list(args[1:]), kwargs)
         if isinstance(f, functools.partial):
             return self.call(f.func, list(f.args) + list(args), {**f.keywords, **kwargs})
         if self.is_interpretable(f) and f not in self.native_ok:
@@ -704,6 +710,15 @@ class Interp:
 
     def call_symmethod(self, sm, args, kwargs):
         obj = self.force(sm.obj)
+        if isinstance(obj, SObj) and "__items__" in obj.fields and sm.name in ("append", "extend", "insert", "__len__"):
+            items = obj.fields["__items__"]
+            if sm.name == "append":
+                items.append(args[0]); self.st.writes.append((obj, "__items__")); return None
+            if sm.name == "extend":
+                items.extend(self.iterate(args[0])); self.st.writes.append((obj, "__items__")); return None
+            if sm.name == "insert":
+                items.insert(self.concrete_key(args[0]), args[1]); self.st.writes.append((obj, "__items__")); return None
+            return len(items)
         t = self.pytype_of(obj)
         for base in t.__mro__:
             m = self.methods.get((base, sm.name))
@@ -769,8 +784,13 @@ class Interp:
                 getter = inspect.getattr_static(tr, "__get__", None)
                 if isinstance(getter, types.FunctionType):
                     return self.call(getter, [raw, o, o.cls])
-            if isinstance(raw, property):     # classproperty and friends: class-level, executed natively
-                return getattr(o.cls, name)
+            if isinstance(raw, property):     # classproperty and friends
+                fget = raw.fget
+                fn = getattr(fget, "__func__", None)
+                if isinstance(fget, classmethod) and isinstance(fn, types.FunctionType) and fn.__module__ != "ofxtools.models.base" \
+                        and (fn in self.models or fn in self.contracts):
+                    return self.call(fn, [o.cls], {})
+                return getattr(o.cls, name)      # class-level computation, executed natively
         if name in o.fields:
             return o.fields[name]
         if raw is not sentinel:
